@@ -20,6 +20,7 @@ type genCfg struct {
 	podPortsVary   bool // pods of one owner may declare one port name on different numbers
 	collidePct     int  // probability (pct) that a twin rule's selector has requirement strings that concatenate to the original's
 	repName        bool // a real pod may be named representative-pod
+	dashTwinPct    int  // probability (pct) of two rules towards namespaces selected by label values that differ in `-` / `_` only
 	samePrioPct    int  // probability (pct) that two AdminNetworkPolicies share one priority (a conflict the tool must reject)
 	icNs           bool // the namespace ingress-controller-ns may hold objects
 	sameName       bool // several workloads (of different kinds) may share one name in a namespace
@@ -35,7 +36,7 @@ var nsPool = []string{"ns0", "ns1", "ns2", "default"}
 var lblKeys = []string{"app", "tier", "role"}
 var lblVals = []string{"a", "b", "c"}
 var nsLblKeys = []string{"team", "env"}
-var nsLblVals = []string{"x", "y"}
+var nsLblVals = []string{"x", "y", "x", "y", "pre-prod", "pre_prod"} // the last two differ in `-` / `_` only (dot writes both as `_`)
 var portPool = []int{1, 53, 79, 80, 81, 443, 1023, 1024, 8080, 9090, 65534, 65535}
 var portNames = []string{"http", "dns", "x"}
 var protoPool = []string{"TCP", "UDP", "SCTP"}
@@ -539,6 +540,19 @@ func genWorld(r *Rng, cfg *genCfg) *World {
 			npNs = "" // written without metadata.namespace: the policy belongs to `default`
 		}
 		w.Objs = append(w.Objs, Obj{Kind: "np", Np: genNetPol(r, cfg, npNs, fmt.Sprintf("np%d", i))})
+	}
+	if cfg.dashTwinPct > 0 && r.P(cfg.dashTwinPct) {
+		// two potential peers whose names differ in `-` / `_` only (the dot writer maps both to `_` in identifiers)
+		for _, o := range w.Objs {
+			if o.Kind == "np" {
+				k := Pick(r, nsLblKeys)
+				p80, p81 := 80, 81
+				o.Np.Ingress = append(o.Np.Ingress,
+					NPRule{Peers: []NPPeer{{NsSel: &Sel{ML: []KV{{k, "pre-prod"}}}}}, Ports: []NPPort{{Proto: "TCP", Kind: "num", Num: p80}}},
+					NPRule{Peers: []NPPeer{{NsSel: &Sel{ML: []KV{{k, "pre_prod"}}}}}, Ports: []NPPort{{Proto: "TCP", Kind: "num", Num: p81}}})
+				break
+			}
+		}
 	}
 	if cfg.anp && r.P(70) {
 		n := r.Intn(4)
